@@ -176,7 +176,15 @@ def gamma(x):
         return S.generic_uf("gamma", x)
     import scipy.special
 
-    return scipy.special.gamma(x)
+    v = scipy.special.gamma(x)
+    from . import values as _V
+
+    c = _V.get_context()
+    if c is not None and not getattr(c, "concrete", False) and not (isinstance(v, float) and math.isfinite(v)) and isinstance(x, (int, float)):
+        # a pole of Gamma (the library stores c * Gamma(-y) also for integer y, where it is not used): an unconstrained symbol, so that
+        # any use of it leaves the obligation unprovable instead of silently accepted
+        return c.real(f"gamma_at_pole[{x}]")
+    return v
 
 
 def gammaincc(s, x):
